@@ -1631,20 +1631,20 @@ func verifFamChangeStream(b *verifB) {
 		b.kind = "CreateChangeStream"
 		b.w("CREATE CHANGE STREAM")
 		b.p("cs")
-		if b.opt() {
+		// which FOR clause is written does not consume budget (no FOR / FOR ALL / FOR tables)
+		switch b.altFree(3) {
+		case 1:
+			b.w("FOR ALL")
+		case 2:
 			b.w("FOR")
-			if b.opt() {
-				b.w("ALL")
-			} else {
-				b.list(",", func(i int) {
-					b.name(i)
-					if b.opt() {
-						b.p("(")
-						b.list(",", func(i int) { b.name(i) })
-						b.p(")")
-					}
-				})
-			}
+			b.list(",", func(i int) {
+				b.name(i)
+				if b.opt() {
+					b.p("(")
+					b.list(",", func(i int) { b.name(i) })
+					b.p(")")
+				}
+			})
 		}
 		if b.opt() {
 			b.options()
